@@ -136,8 +136,10 @@ def ref_step(state, op):
         old = vals[ki]
         if (k == "range_x" and old != ABSENT and old != i
                 and vals[KEYS.index("optimal_fit_edelta")] == 1
-                and DOMAIN[k][old]()[1] == DOMAIN[k][i]()[1]):
-            return      # documented don't-care: the edit is ignored
+                and max(DOMAIN[k][old]()) == max(DOMAIN[k][i]())):
+            # documented don't-care: an edit that leaves the *upper*
+            # boundary (the larger of the two values) alone is ignored
+            return
         if old == ABSENT or old != i:
             if k == "model_key":
                 setk("params_initial", 0)
